@@ -27,7 +27,7 @@ func c02(r *core.Run) {
 	r.Rule("C02/R1", "writer/reader leaf encodings agree: term(builder leaf) ≡ term(verifier leaf) up to leaf naming; same tree hash constructor; same salted flag")
 	r.Rule("C02/R2", "challenge bounded: each Int63n(n) on transaction paths is behind Cmp(n > 0); n ⊵ FileSize and the chunk size; the chunk size at every caller ⊵ Param(storage.ChunkSize) whose validator enforces >= 1")
 	r.Rule("C02/R4", "the file judged in the reward loop is decoded into a fresh variable per file (no captured decode target with repeated fields): otherwise an honest prover of an earlier file is judged against a later file's window and removed/burned")
-	r.Rule("C02/R3", "remove/burn only on the miss branch: in the per-proof routine removal is behind young=false and (proof not found or proven=false); burn behind proven=false and young=false")
+	r.Rule("C02/R3", "remove/burn only on the miss branch: in the per-proof routine removal is behind young=false and (proof not found or proven=false); burn behind proven=false and young=false; the provider burned is the prover named by the per-proof key")
 	heightDimensions(r, "C02/R5", moduleFuncs(p, "storage"), 8)
 	if hs, err := p.Handlers(); err == nil {
 		if h := core.HandlerByKey(hs, "storage.MsgPostProof"); h != nil {
@@ -235,6 +235,7 @@ func c02(r *core.Run) {
 		}
 		r.Floor("C02/R3", nRem, 1, "removal sites of the per-proof routine")
 		r.Floor("C02/R3", nBurn, 1, "burn sites of the per-proof routine")
+		r.Floor("C02/R3", burnTargetIsProver(r, "C02/R3", p.Summary(e).Funcs, routine), 1, "burned provider lookups")
 		staleDecodeTargets(r, "C02/R4", p.Summary(e).Funcs)
 	}
 }
